@@ -1011,10 +1011,10 @@ func H_C03_lndSpendPreimage() { vwSpend(vwPreimage, 3, false) }
 func H_C03_lndSpendCsv()      { vwSpend(vwCsv, 3, false) }
 func H_C03_lndSpendCoop()     { vwSpend(vwCoop, 2, false) }
 
-// Thorough tier: arbitrary keys / payment hash / preimage (maker != taker), <= 3 outputs.
+// Thorough tier: arbitrary keys / payment hash / preimage (maker != taker), <= 3 outputs (coop: <= 2).
 func H_C03_T_lndSpendPreimage() { vwSpend(vwPreimage, 3, true) }
 func H_C03_T_lndSpendCsv()      { vwSpend(vwCsv, 3, true) }
-func H_C03_T_lndSpendCoop()     { vwSpend(vwCoop, 3, true) }
+func H_C03_T_lndSpendCoop()     { vwSpend(vwCoop, 2, true) }
 func H_C08_T_lndOpening()       { vwOpening(vwChangeNotAmount, true) }
 
 // H_C03_lndSpendUnvalidatedOpening: an opening transaction that would NOT pass validation (2..3
